@@ -120,6 +120,16 @@ CHECKS = {
             "as under default preferences.",
             "Histories sampled by TLC simulation; 4 candidate units per dimension; formatted output excluded; zero skipped where meaningless.",
             "DESIGN.md §4 C07"),
+    "C10": ("TLA+ specs Session.tla (operation histories over a shared object graph) and Threads.tla (all interleavings of per-thread "
+            "blocks) model-checked by TLC; histories replayed on real objects with fresh-object oracle and deep snapshots; TLC schedules "
+            "drive real threads at the solver hook",
+            "TLC checks history independence, only-a-successful-zero-writes-the-zero and failed operations change nothing, and refutes "
+            "a solver that leaks per-call state; generated histories (fire plain/extra/timed, raising fire and zero, danger space, "
+            "multi-BC build; shots sharing weapon/ammunition by reference) are replayed: every result must equal the same operation on "
+            "freshly built objects with a fresh calculator, deep snapshots of all arguments, globals and shipped tables must not change; "
+            "every enumerated interleaving of 2 threads is executed with a deterministic scheduler at hook H1, plus free-running threads.",
+            "Histories sampled by TLC simulation (depth 6); schedules exhaustive for 2 threads x 3/4 blocks; preemption inside one loop "
+            "iteration only by free-running runs; hooks H1/H2 required.", "DESIGN.md §4 C10"),
 }
 
 NOT_APPLICABLE = {
